@@ -110,9 +110,10 @@ def worker_main(pid, tier, seed, shard, nshards, budget, outpath, ncases):
             s = sets.setdefault(k, set())
             if len(s) < 200000:
                 s.update(xs)
-        if res.get('nontrivial') and v != 'declined':
+        if 'keys' in res:
+            keys.update(res['keys'])
+        elif res.get('nontrivial') and v != 'declined':
             keys.add(res.get('key', str(index)))
-        keys.update(res.get('keys', ()))
         if res.get('sample') is not None and len(agg['samples']) < 3 and res.get('nontrivial'):
             agg['samples'].append(res['sample'])
         for viol in res.get('violations', ()):
